@@ -24,6 +24,7 @@ import (
 	"io/fs"
 	"path"
 	"slices"
+	"strings"
 	"sync"
 	"time"
 )
@@ -231,6 +232,12 @@ func New(ra io.ReaderAt, size int64) (*FS, error) {
 		if err != nil {
 			return nil, err
 		}
+		if isSparse(hdr) {
+			// The index hands out the bytes found at the entry's offset in the archive. For a sparse
+			// entry those are the stored fragments (and, for its logical length, whatever follows
+			// them), not the content a tar reader yields and checkSums verified.
+			return nil, fmt.Errorf("sparse entry %q is not supported", hdr.Name)
+		}
 		dir := path.Dir(hdr.Name)
 		fsys.index[hdr.Name] = len(fsys.files)
 		fsys.files = append(fsys.files, &Entry{
@@ -260,6 +267,19 @@ func New(ra io.ReaderAt, size int64) (*FS, error) {
 	}
 
 	return fsys, nil
+}
+
+// isSparse reports whether archive/tar expanded the entry from a GNU or PAX sparse representation.
+func isSparse(hdr *tar.Header) bool {
+	if hdr.Typeflag == tar.TypeGNUSparse {
+		return true
+	}
+	for k := range hdr.PAXRecords {
+		if strings.HasPrefix(k, "GNU.sparse.") {
+			return true
+		}
+	}
+	return false
 }
 
 func (fsys *FS) Close() error {
